@@ -12,8 +12,8 @@
                     and the final value recomputed with the step functions of Concurrency/Atomics.v;
      KCounterSum  : concurrent add-only mixes: the final value is initial + sum of all deltas (mod 2^64);
      KFlagFinal / KStoreFinal : concurrent writer mixes: the final value is some thread's LAST write;
-     KCharge      : a successful execution overlapping gas-schedule changes between schedules a and b was
-                    charged the formula of Concurrency/GasScheduleAtomic.v under a or under b. *)
+     KCharge / KChargeCopy : a successful execution overlapping gas-schedule changes between schedules a and b
+                    was charged the formula of Concurrency/GasScheduleAtomic.v under a or under b. *)
 From Coq.Strings Require Import String.
 From EV Require Import Base.Bytes Concurrency.RWLock Concurrency.MutexMapLin Concurrency.Atomics
   Concurrency.GasScheduleAtomic.
@@ -102,6 +102,7 @@ Definition mk_sched (base store persist dcopy : N) : sched :=
   fun f => match f with FBase => base | FStorePerByte => store | FPersistPerByte => persist | FDataCopyPerByte => dcopy end.
 (* the charge formula of charge_formula_single_schedule: base + len * persist-per-byte + chg * store-per-byte *)
 Definition charge (g : sched) (len chg : N) : N := (g FBase + len * g FPersistPerByte + chg * g FStorePerByte)%N.
+Definition charge_copy (g : sched) (n bytes : N) : N := (n * g FBase + bytes * g FDataCopyPerByte)%N.
 
 (* ---------------------------------------------------------------- cases *)
 Inductive case :=
@@ -114,7 +115,9 @@ Inductive case :=
 | KCounterSum (init : Z) (progs : list (list counter_op)) (final : Z)
 | KFlagFinal (init : N) (progs : list (list flag_op)) (final : N)
 | KStoreFinal (w : width) (init : Z) (progs : list (list (sl_op Z))) (final : Z)
-| KCharge (a b : N * N * N * N) (len chg : N) (observed : N).
+| KCharge (a b : N * N * N * N) (len chg : N) (observed : N)
+(* sender side of ESDTNFTTransfer (n = 1) / MultiESDTNFTTransfer (n transfers): n * base + payload bytes * data-copy-per-byte *)
+| KChargeCopy (a b : N * N * N * N) (n bytes : N) (observed : N).
 
 Definition sched_of (x : N * N * N * N) : sched := let '(b, s, p, d) := x in mk_sched b s p d.
 
@@ -144,6 +147,8 @@ Definition check_case (c : case) : bool :=
   | KStoreFinal w init progs final => final_is_some_last Z.eqb (sl_writes Z (wnorm w)) init progs final
   | KCharge a b len chg observed =>
     (observed =? charge (sched_of a) len chg)%N || (observed =? charge (sched_of b) len chg)%N
+  | KChargeCopy a b n bytes observed =>
+    (observed =? charge_copy (sched_of a) n bytes)%N || (observed =? charge_copy (sched_of b) n bytes)%N
   end.
 
 Fixpoint mismatches_from (i : nat) (l : list case) : list nat :=
@@ -157,5 +162,7 @@ Example corr_rejects :
   /\ check_case (KLin 2 [LOp 0 1 4 (Set_ [x61] 1%N) RUnit; LOp 1 2 3 (Get [x61]) (RVal (Some 1%N))]) = true
   /\ check_case (KCounterSum 5%Z [[CIncrement]; [CIncrement]] 6%Z) = false
   /\ check_case (KCharge (10, 2, 3, 4)%N (100, 20, 30, 40)%N 0 5 (10 + 5 * 20)%N) = false
-  /\ check_case (KCharge (10, 2, 3, 4)%N (100, 20, 30, 40)%N 0 5 (100 + 5 * 20)%N) = true.
+  /\ check_case (KCharge (10, 2, 3, 4)%N (100, 20, 30, 40)%N 0 5 (100 + 5 * 20)%N) = true
+  /\ check_case (KChargeCopy (10, 2, 3, 4)%N (100, 20, 30, 40)%N 2 7 (2 * 10 + 7 * 40)%N) = false
+  /\ check_case (KChargeCopy (10, 2, 3, 4)%N (100, 20, 30, 40)%N 2 7 (2 * 100 + 7 * 40)%N) = true.
 Proof. vm_compute. repeat split. Qed.
